@@ -30,8 +30,8 @@ LEVEL_TEXT = (
 LEVEL_NOTE = (
     "Trusted: Lean kernel; the hand-written model (tied by correspondence on generated inputs, not by translation); "
     "the harness. Parametric (not proved here): leaf output coercion and input coercion of literals (Ops; C15/C16), "
-    "instantiated by Gql/Exec/Values.lean for the run. Variable coercion (get_variable_values) is taken from the "
-    "implementation. Awaitables, @defer/@stream, subscriptions, middleware, is_type_of, custom scalars, "
+    "instantiated by Gql/Exec/Values.lean for the run (including CoerceVariableValues on the raw variable values). "
+    "Awaitables, @defer/@stream, subscriptions, middleware, is_type_of, custom scalars, "
     "__schema/__type are outside the model."
 )
 TECHNIQUE = "refinement proof (impl model = spec) + differential correspondence + spec-as-oracle on the implementation"
@@ -40,7 +40,8 @@ TRUSTED = [
     "tied to the code by the differential run below (data, ordered error paths, resolver call log)",
     "Gql/Exec/Values.lean (concrete leaf serialisation / literal coercion on the harness' value domain) - a parameter "
     "of every theorem, compared with the code on every generated case",
-    "variable coercion is performed by the implementation (get_variable_values) and its result handed to the model",
+    "variable coercion: the raw variable values go to the driver, which coerces them with Concrete.coerceVariableValues "
+    "(Gql/Exec/Values.lean, part of the value layer) - the executors and theorems start from coerced values",
 ]
 ASSUMPTIONS = [
     "resolvers are synchronous pure functions of (source node, field name, coerced arguments)",
@@ -317,7 +318,9 @@ def add_guards(rng, case, schema, documents):
 
 
 def req_line_part(doc_sx, req, coerced):
-    vars_sx = "(vars" + "".join(f" ({k} {G.pyval_sx(v)})" for k, v in coerced.items()) + ")"
+    # RAW variable values: the driver coerces them itself (Concrete.coerceVariableValues), so that
+    # variable coercion of the implementation is checked against the specification as well
+    vars_sx = "(rawvars" + "".join(f" ({k} {G.pyval_sx(v)})" for k, v in req["vars"].items()) + ")"
     return f"(req {doc_sx} {req['op'] or '-'} {vars_sx} {G.data_sx(_guards_plain(req['data']))})"
 
 
@@ -401,7 +404,7 @@ def prepare_case(case, with_guards=True):
             else:
                 coerced = cv.coerced
         m = {"i": i, "req_error": req_error, "valid": valid[req["doc"]], "sent": False}
-        if not req_error:
+        if True:
             try:
                 parts.append(req_line_part(docs_sx[req["doc"]], req, coerced))
                 m["sent"] = True
@@ -508,7 +511,6 @@ def check_case(case, rep, prepared, out, seen):
             bump("maybe_mutation_ops")
         if m["req_error"]:
             bump("request_error_cases")
-            continue
         if not m["sent"]:
             bump("skipped_outside_domain")
             continue
@@ -519,6 +521,18 @@ def check_case(case, rep, prepared, out, seen):
         if nontrivial and h not in seen:
             seen.add(h)
             rep.nontrivial += 1
+        model_var_error = outs[2][k] == "varerror"
+        if model_var_error or m["req_error"]:
+            k += 1
+            if model_var_error != m["req_error"] and m["valid"]:
+                what = ("variable coercion rejects values the specification's CoerceVariableValues accepts"
+                        if m["req_error"] else
+                        "variable coercion accepts values the specification's CoerceVariableValues rejects")
+                rep.disagreements.append(Disagreement("get_variable_values vs Concrete.coerceVariableValues", inp(), m["req_error"], model_var_error))
+                rep.failures.append(Failure("variable-coercion-vs-spec", what, inp(), e1, "varerror" if model_var_error else "coercible", "C02-3 CoerceVariableValues"))
+            else:
+                bump("request_errors_agreed")
+            continue
         md, me, ml, _mk = split_resp(outs[0][k])
         fd, fe, fl, _fk = split_resp(outs[1][k])
         sd, se, sl, sk = split_resp(outs[2][k])
